@@ -24,3 +24,37 @@ package ast
 //@     invariant 0 <= off && off <= len(str) && lineTable(lines) && lines[len(lines)-1] == off && fresh(lines)
 //@     invariant forall k in 1..len(lines) :: 1 <= lines[k] && lines[k] <= len(str) && str[lines[k]-1] == '\n'
 //@     invariant forall p in 0..off :: str[p] == '\n' ==> exists k in 1..len(lines) :: lines[k] == p + 1
+
+// ---- the tree builder (C20): nodes arrive in post-order, each one adopts the stack entries it covers ----
+
+// wfStack: every stack entry is a node; entries are pairwise distinct and sorted by start offset
+//@ pred stackNodes(b *builder) = forall k in 0..len(b.stack) :: b.stack[k] != nil
+//@ pred stackSorted(b *builder) = forall p in 0..len(b.stack) :: forall q in p+1..len(b.stack) :: b.stack[p] != b.stack[q] && b.stack[p].offset <= b.stack[q].offset
+//@ pred wfStack(b *builder) = stackNodes(b) && stackSorted(b)
+
+//@ func builder.addNode
+//@   requires stackNodes(b) && stackSorted(b) && offset <= endoffset
+//@   modifies b.stack, b.stack[0:cap(b.stack)], fields(Node, parent), fields(Node, next)
+//@   ensures stackNodes(b)
+//@   ensures stackSorted(b)
+//@   ensures 1 <= len(b.stack) && len(b.stack) <= old(len(b.stack)) + 1
+// the new node sits at some position s; the entries below it are untouched, the entries above it are the
+// former entries that start at or after endoffset, in order
+//@   ensures exists s in 0..len(b.stack) :: fresh(b.stack[s]) && b.stack[s].offset == offset && b.stack[s].endoffset == endoffset && b.stack[s].t == t && b.stack[s].tree == b.tree && (forall k in 0..s :: b.stack[k] == old(b.stack[k]) && b.stack[k].offset < offset) && (let d = old(len(b.stack)) - len(b.stack) in forall k in s+1..len(b.stack) :: b.stack[k] == old(b.stack[k + d]) && endoffset <= b.stack[k].offset)
+// the former entries that start inside [offset, endoffset) are exactly the entries that left the stack:
+// they are now children of the new node, chained through next in their stack (= source) order
+//@   ensures exists s in 0..len(b.stack) :: fresh(b.stack[s]) && forall k in 0..old(len(b.stack)) :: (offset <= old(b.stack[k]).offset && old(b.stack[k]).offset < endoffset) <==> (s <= k && k <= s + old(len(b.stack)) - len(b.stack))
+//@   ensures exists s in 0..len(b.stack) :: fresh(b.stack[s]) && (forall k in s..s + old(len(b.stack)) - len(b.stack) + 1 :: old(b.stack[k]).parent == b.stack[s] && old(b.stack[k]).next == (k == s + old(len(b.stack)) - len(b.stack) ? nil : old(b.stack[k+1]))) && (b.stack[s].firstChild == (old(len(b.stack)) - len(b.stack) + 1 > 0 ? old(b.stack[s]) : nil))
+//@   loop 1:
+//@     invariant 0 <= start && start <= end && end <= len(b.stack) && sameslice(b.stack, old(b.stack))
+//@     invariant forall k in start..end :: offset <= b.stack[k].offset && b.stack[k].offset < endoffset
+//@     invariant forall k in end..len(b.stack) :: endoffset <= b.stack[k].offset
+//@   loop 2:
+//@     invariant 0 <= start && start < end && end <= len(b.stack) && start - 1 <= i && i < end && sameslice(b.stack, old(b.stack))
+//@     invariant forall k in 0..len(b.stack) :: b.stack[k] == old(b.stack[k])
+//@     invariant fresh(out) && out != nil && out.offset == offset && out.endoffset == endoffset && out.t == t && out.tree == b.tree && out.firstChild == b.stack[start]
+//@     invariant prev == (i + 1 < end ? b.stack[i+1] : nil)
+//@     invariant forall k in i+1..end :: b.stack[k].parent == out && b.stack[k].next == (k == end - 1 ? nil : b.stack[k+1])
+//@     invariant start > 0 ==> b.stack[start-1].offset < offset
+//@     invariant forall k in start..end :: offset <= b.stack[k].offset && b.stack[k].offset < endoffset
+//@     invariant forall k in end..len(b.stack) :: endoffset <= b.stack[k].offset
